@@ -100,7 +100,7 @@ CHECKS = {
         'long-lived translator objects (3 programs x 4 languages, depth 3, state merging on translator attributes; '
         'factorised per translator with an independence check on every transition) compares every text with a '
         'fresh-translator reference and every program snapshot with its pre-translation snapshot. Histories are exactly '
-        'what a sample test cannot reach. Additionally every program of a hand-built program family (mc/progfam.py: 1 530 skeletons x language built through the real IR constructors -- generic calls fixed only by the expected type, constructors whose parameter occurs in no argument, constructor calls in receiver position, nested generic arguments, wider declared types, conditionals) (quick: one per initializer) is explored with every alternative of the overwriting mutation.',
+        'what a sample test cannot reach. Additionally every program of a hand-built program family (mc/progfam.py: 1 530 skeletons x language built through the real IR constructors -- generic calls fixed only by the expected type, constructors whose parameter occurs in no argument, constructor calls in receiver position, nested generic arguments, wider declared types, conditionals) (quick: one per initializer) is explored with every alternative of the overwriting mutation. Cross-program histories: all histories of length <=3 (thorough 4) over three hand-built programs that share identifiers with a different status (top-level function vs method, variable vs field, a nested function with four parameters) on one long-lived translator per language; every text must equal the reference recorded first, and fresh translators are re-checked after every history.',
    note=CTE_NOTE + ' Translator state = instance attributes + non-callable class attributes.',
    technique='stateless choice-tree exploration of the real pipeline + explicit-state BFS over translation histories against a fresh-translator reference'),
  'C12': dict(engine='CTE', category='model_checking', design_ref='5 C12',
@@ -115,7 +115,7 @@ CHECKS = {
  'C13': dict(engine='CTE', category='model_checking', design_ref='5 C13',
    text='At every save point of every explored execution the live program goes through the real dump/load (and '
         '--replay path); snapshots, translations in 4 languages, a second dump, and the mutations replayed '
-        'answer-by-answer from the recorded trace must all agree with the original. Every saved .bin is also reloaded in a NEW interpreter with a different string-hash seed (PYTHONHASHSEED 1 vs 0: what --replay is), translated to the four languages, dumped and reloaded again; and at every save point the history load ; mutate in place ; load again must return the saved program.',
+        'answer-by-answer from the recorded trace must all agree with the original. Every saved .bin is also reloaded in a NEW interpreter with a different string-hash seed (PYTHONHASHSEED 1 vs 0: what --replay is), translated to the four languages, dumped and reloaded again; and at every save point the history load ; mutate in place ; load again must return the saved program. Every save goes through the driver\'s own hephaestus.save_program (source + .bin, in the driver\'s order).',
    note=CTE_NOTE + ' The per-execution node-hash counter travels with the pickle (identity-hash order is neutralised).',
    technique='stateless choice-tree exploration with trace replay of the mutations on the reloaded program'),
  'C14': dict(engine='OUT', category='exploration', design_ref='5 C14',
@@ -131,7 +131,7 @@ CHECKS = {
         'session within the bounds: 7 (thorough 9) program behaviours per program x batch layouts up to 3 programs per '
         'batch / 3 batches x compiler crash per batch x sequential and worker-pool mode, and for each session every '
         'schedule of a virtual pool (all completion orders) and of package-name draws. Each complete run is compared '
-        'with a reference decision table (faults, messages, saved test cases, leftovers, counters, json files).',
+        'with a reference decision table (faults, messages, saved test cases, leftovers, counters, json files). Package names of one batch are drawn so that each is a proper suffix of the corresponding name of the next program (art/heart, ear/near, ...).',
    note='Trusted: scripted compiler/program stages, the virtual pool (oracle tasks complete only at apply_async/get/join; '
         'pickle at the boundary), the 100-line reference model. At most 2 package-name reuses per session.',
    technique='exhaustive enumeration of scripted sessions x all schedules (stateless exploration with a virtual pool) against a reference decision table'),
